@@ -1,0 +1,5 @@
+//go:build !verif
+
+package fpgo
+
+func verifPoint(string) {}
